@@ -36,7 +36,7 @@ DEEP = ("hold", "len", "push", "get", "hsetF")
 
 # directed histories for the element-wrapper cache: references taken, the slice shrunk below them, re-grown within the capacity,
 # the cache re-extended by a read further up, a re-allocating push, then a write through the old reference
-SCRIPTS = {"SA": 8, "SB": 8, "SC": 8, "SD": 8}       # Bridge.tla SA..SD (name: length); SN = no script
+SCRIPTS = {"SA": 8, "SB": 8, "SC": 8, "SD": 9, "SE": 8}       # Bridge.tla SA..SE (name: length); SN = no script
 
 
 def plan(kind, len0=2, cap0=None, nh=2, maxops=3, rich=0, opset=(), lean=True, share=None, script="SN"):
@@ -64,7 +64,9 @@ def plans(thorough):
     out.append(plan("ss", cap0=3, maxops=5, opset=CORE[:-1], lean=False))
     out.append(plan("pss", len0=3, cap0=3, nh=1, maxops=5, opset=DEEP, lean=False))
     for sc in sorted(SCRIPTS):
-        out.append(plan("pss", len0=3, cap0=3, nh=1, maxops=SCRIPTS[sc], script=sc, lean=False))
+        # (lean: also replayed observing through the Go side only - the full observation reads every element after every step and so
+        # re-fills the wrapper cache, which hides histories that depend on an element NOT having been read)
+        out.append(plan("pss", len0=3, cap0=3, nh=1, maxops=SCRIPTS[sc], script=sc, lean=True))
     return out
 
 
